@@ -593,6 +593,9 @@ func (s *MemoryStore) maybePruneLocked(now time.Time) {
 		}
 		if len(items) > s.dlqMaxDepth {
 			sort.Slice(items, func(i, j int) bool {
+				if items[i].receivedAt.Equal(items[j].receivedAt) {
+					return items[i].id < items[j].id
+				}
 				return items[i].receivedAt.Before(items[j].receivedAt)
 			})
 			excess := len(items) - s.dlqMaxDepth
